@@ -52,6 +52,6 @@ package blake2b
 //@ ensures implies(result == nil, len(b) == 213 && b[0] == 'b' && b[1] == '2' && b[2] == 'b')
 //@ ensures implies(result == nil, d.size == b[83] && d.offset == b[212] && d.keyLen == old(d.keyLen))
 //@ ensures implies(result == nil, forall(i, 0, 128, d.block[i] == b[84+i]))
-//@ ensures implies(result == nil, dinv(d))
+//@ ensures implies(result == nil && 0 <= old(d.keyLen) && old(d.keyLen) <= 64, dinv(d))
 //@ ensures implies(len(b) != 213, result != nil)
 //@ canary ensures result == nil
